@@ -11,7 +11,7 @@
 //!   * dynamic: `dynamic::Schema` built from the JSON; every resolver walks `ctx.args` along the declared
 //!     argument types with the typed accessors a user would call (`get` presence, `is_null`, `i64`, `string`,
 //!     `boolean`, `enum_name`, `list`, `object`) and logs what they yield; an accessor that refuses the value
-//!     is logged as `{k:"bad", got:<kind>}` (a value that does not match the declared type reached the resolver).
+//!     is logged as `{k:"bad"}` (a value that does not match the declared type reached the resolver; `notes` says which).
 //! At start-up the SDL of both schemas is compared (exact text equality, defaults included), so the
 //! derive-built family cannot silently diverge from the JSON that TLC reads.
 //!
@@ -25,7 +25,7 @@ use vh::io::*;
 use vh::{doc, exec};
 
 #[derive(Default)]
-struct Log(Mutex<Vec<J>>);
+struct Log(Mutex<Vec<J>>, Mutex<Vec<String>>);
 type LogRef = Arc<Log>;
 
 // ---------------------------------------------------------------------------------------------
@@ -146,14 +146,14 @@ fn kind_of(v: &Value) -> &'static str {
 }
 
 /// Walk a value along its declared type with the typed accessors.
-fn walk(ts: &J, ty: &J, v: Option<d::ValueAccessor<'_>>) -> J {
+fn walk(ts: &J, ty: &J, v: Option<d::ValueAccessor<'_>>, notes: &mut Vec<String>) -> J {
     let Some(a) = v else { return json!({"k": "undef"}) };
     if a.is_null() { return json!({"k": "null"}); }
-    let bad = |a: &d::ValueAccessor<'_>| json!({"k": "bad", "got": kind_of(a.as_value())});
+    let mut bad = |a: &d::ValueAccessor<'_>| { notes.push(format!("{} refused for {}", kind_of(a.as_value()), type_ref(ty))); json!({"k": "bad"}) };
     match ty["k"].as_str().unwrap() {
-        "nn" => walk(ts, &ty["of"], Some(a)),
+        "nn" => walk(ts, &ty["of"], Some(a), notes),
         "list" => match a.list() {
-            Ok(l) => json!({"k": "list", "items": l.iter().map(|x| walk(ts, &ty["of"], Some(x))).collect::<Vec<_>>()}),
+            Ok(l) => json!({"k": "list", "items": l.iter().map(|x| walk(ts, &ty["of"], Some(x), notes)).collect::<Vec<_>>()}),
             Err(_) => bad(&a),
         },
         _ => {
@@ -169,9 +169,9 @@ fn walk(ts: &J, ty: &J, v: Option<d::ValueAccessor<'_>>) -> J {
                 _ => match a.object() {
                     Ok(o) => {
                         let fields = ts["inputs"][n]["fields"].as_array().unwrap();
-                        let mut entries: Vec<J> = fields.iter().map(|f| ent(f["name"].as_str().unwrap(), walk(ts, &f["ty"], o.get(f["name"].as_str().unwrap())))).collect();
+                        let mut entries: Vec<J> = fields.iter().map(|f| ent(f["name"].as_str().unwrap(), walk(ts, &f["ty"], o.get(f["name"].as_str().unwrap()), notes))).collect();
                         for k in o.keys() {
-                            if !fields.iter().any(|f| f["name"] == k.as_str()) { entries.push(ent(k.as_str(), json!({"k": "bad", "got": "unknown"}))); }
+                            if !fields.iter().any(|f| f["name"] == k.as_str()) { notes.push(format!("unknown field {}", k)); entries.push(ent(k.as_str(), json!({"k": "bad"}))); }
                         }
                         json!({"k": "obj", "entries": entries})
                     }
@@ -207,9 +207,12 @@ fn dynamic_schema(ts: &Arc<J>) -> d::Schema {
             let ts = ts2.clone();
             let fdef = fdef.clone();
             d::FieldFuture::new(async move {
+                let mut notes = Vec::new();
                 let args: Vec<J> = fdef["args"].as_array().unwrap().iter()
-                    .map(|a| ent(a["name"].as_str().unwrap(), walk(&ts, &a["ty"], ctx.args.get(a["name"].as_str().unwrap())))).collect();
-                ctx.data_unchecked::<LogRef>().0.lock().unwrap().push(J::Array(args));
+                    .map(|a| ent(a["name"].as_str().unwrap(), walk(&ts, &a["ty"], ctx.args.get(a["name"].as_str().unwrap()), &mut notes))).collect();
+                let log = ctx.data_unchecked::<LogRef>();
+                log.0.lock().unwrap().push(J::Array(args));
+                log.1.lock().unwrap().extend(notes);
                 Ok(Some(Value::from(true)))
             })
         });
@@ -239,14 +242,15 @@ fn plain(v: &J) -> J {
 
 fn observe(r: Result<Response, String>, log: &LogRef) -> J {
     let calls = std::mem::take(&mut *log.0.lock().unwrap());
+    let notes = std::mem::take(&mut *log.1.lock().unwrap());
     match r {
         Ok(resp) => {
             let with_path = resp.errors.iter().any(|e| !e.path.is_empty());
             let class = if resp.errors.is_empty() { "none" } else if with_path { "field" } else { "request" };
             json!({"calls": calls.len(), "args": calls.first().cloned().unwrap_or(json!([])), "nerr": resp.errors.len(), "errclass": class,
-                   "msg": resp.errors.first().map(|e| e.message.clone()).unwrap_or_default(), "problem": ""})
+                   "msg": resp.errors.first().map(|e| e.message.clone()).unwrap_or_default(), "notes": notes, "problem": ""})
         }
-        Err(p) => json!({"calls": calls.len(), "args": calls.first().cloned().unwrap_or(json!([])), "nerr": 0, "errclass": "none", "msg": "", "problem": format!("panic: {p}")}),
+        Err(p) => json!({"calls": calls.len(), "args": calls.first().cloned().unwrap_or(json!([])), "nerr": 0, "errclass": "none", "msg": "", "notes": notes, "problem": format!("panic: {p}")}),
     }
 }
 
